@@ -6,6 +6,7 @@ import facts
 import fieldflow as ff
 import hirq as H
 import piecewise as pw
+from ruleutil import H_short
 from e2_all import Inventory, short_ty
 from ruleutil import find_fn
 
@@ -389,4 +390,24 @@ def check(rep, F, tier, replay=None):
     sib_qty_rule(rep, F)
     from ruleutil import recalc_all_rule
     recalc_all_rule(rep, F)
+    # SAME-list: indices computed on one list are resolved against the same list
+    rep.rule("SAME-list", "in create_send_all the UTxO list the categorizer indexes (argument of TxBatchBuilder::new) and the list the proposals' UtxoIndex values are resolved against when the transactions are assembled (argument of TxBatchBuilder::build) are the same value - both originate from the collection that was made unique by input (same origin set): with the caller's list on one side and the de-duplicated one on the other, every index after the first repeated entry points at another UTxO, so inputs and outputs no longer balance and some UTxO is never spent")
+    import fieldflow as _ff2
+    cs_ids = [f for f in F.fns if f.endswith("tx_batch_builder::create_send_all")]
+    if len(cs_ids) != 1:
+        rep.lost("create_send_all not found")
+    else:
+        fn__ = F.fns[cs_ids[0]]
+        org__ = _ff2.Origins(F, cs_ids[0])
+        new__ = [c for c in F.calls(cs_ids[0]) if (c.to or "").endswith("TxBatchBuilder::new")]
+        bld__ = [c for c in F.calls(cs_ids[0]) if (c.to or "").endswith("TxBatchBuilder::build")]
+        if len(new__) != 1 or len(bld__) != 1:
+            rep.lost("create_send_all: TxBatchBuilder::new / build calls not found")
+        else:
+            rep.inst("SAME-list")
+            strip = lambda o: {x.split("@")[0] for x in o}
+            a__ = strip(org__.of_operand(fn__["bbs"][new__[0].bb]["t"][3][0]))
+            b__ = strip(org__.of_operand(fn__["bbs"][bld__[0].bb]["t"][3][1]))
+            if a__ != b__:
+                rep.violation("SAME-list", "create_send_all|%s" % ",".join(sorted(H_short(x) for x in (a__ ^ b__))[:4]), "create_send_all hands TxBatchBuilder::new and TxBatchBuilder::build lists of different origin (only in one of them: %s): the UtxoIndex values of the proposals are positions in the first list and are looked up in the second - after a repeated entry ([A, A, B]) every later input is taken from the wrong position" % sorted(H_short(x) for x in (a__ ^ b__))[:6], {})
     return rep.finish(EXPLANATION, ["the categorizer stores the address parameter unchanged (AssetCategorizer::new / TxOutputProposal::new clone it)"], ["csl-facts driver (HIR/MIR)", "tables/conway_cddl.json (set types, tag 258)", "E2 writer tables"])
